@@ -358,9 +358,18 @@ func (x *Exec) invoke(fr *Frame, st *State, cc *ssa.CallCommon, recv V, args []V
 	// error.Error() and friends: pure
 	name := cc.Method.Name()
 	full := cc.Method.FullName()
-	if c := x.portContract(cc.Method); c != nil {
+	// the interface value was made from a concrete value on this very path: the method is
+	// the concrete type's. A port contract that says something about the result (or carries
+	// ghost effects) stays in charge; one that only bounds the effects does not hide the body.
+	pc := x.portContract(cc.Method)
+	if recv.Dyn != nil && recv.Dyn.T != nil && (pc == nil || (len(pc.Ensures) == 0 && len(pc.Assigns) == 0)) {
+		if m := x.prog.methodOf(recv.Dyn.T, cc.Method); m != nil {
+			return x.callFunc(fr, st, m, nil, append([]V{*recv.Dyn}, args...), rt, pos)
+		}
+	}
+	if pc != nil {
 		all := append([]V{recv}, args...)
-		return x.callContract(fr, st, c, nil, cc.Method, all, rt, pos)
+		return x.callContract(fr, st, pc, nil, cc.Method, all, rt, pos)
 	}
 	if name == "Error" && cc.Method.Type().(*types.Signature).Params().Len() == 0 {
 		return x.freshOfType(st, rt, "errstr")
@@ -552,6 +561,11 @@ func (x *Exec) inlinable(fn *ssa.Function, c *Contract) bool {
 	loops := findLoops(fn)
 	for _, li := range loops {
 		if c == nil || c.Loops[li.ordinal] == nil {
+			// a helper without a contract that took over a loop of the function under
+			// verification: inlined, with that loop's invariants as candidates (orphanInvs)
+			if c == nil && len(x.orphanInvs) > 0 {
+				continue
+			}
 			return false
 		}
 	}
